@@ -190,6 +190,11 @@ pub fn run_sb_check(id: &str, tier: &str, seed: u64) -> i32 {
             if n4 > 0 {
                 a.merge(report::par_acc(n4, |r| sb_checks::run_c07_c18(seed, r, &format!("{}-d4", id), c07, c18, 4, 600)));
             }
+            if c18 {
+                // stream view over whole sessions (what a GUI sees between go and bestmove)
+                let ns = if quick { 2_500 } else { 50_000 };
+                a.merge(report::par_acc(ns, |r| sa_checks::run_c18_session(seed, r)));
+            }
             (a, n2 + n3 + n4)
         }
         "C12" => {
@@ -370,6 +375,7 @@ pub fn replay_file(path: &str) -> i32 {
                 match prop.as_str() {
                     "C03" => j.c03 = true,
                     "C08" => j.c08 = true,
+                    "C18" => j.c18 = true,
                     _ => j.c09 = true,
                 }
                 sa_checks::replay(sc, j).0
